@@ -30,7 +30,7 @@ func Snapshot(root string) map[string]Entry {
 			return nil
 		}
 		rel, _ := filepath.Rel(root, p)
-		e := Entry{Mode: info.Mode().Perm()}
+		e := Entry{Mode: info.Mode() & (fs.ModePerm | fs.ModeSetgid | fs.ModeSetuid | fs.ModeSticky)}
 		switch {
 		case info.IsDir():
 			e.Kind = "dir"
